@@ -10,7 +10,9 @@ import (
 	"go/constant"
 	"go/token"
 	"go/types"
+	"regexp"
 	"sort"
+	"strconv"
 	"strings"
 )
 
@@ -381,7 +383,7 @@ func c15P3(c *Ctx, fn *FuncInfo, counts map[string]int) {
 			return true
 		}
 		counts["P3"]++
-		key := fmt.Sprintf("%s: %s", fn.Key(), exprString(ta))
+		key := fmt.Sprintf("%s: %s", fn.Key(), exprStringFolded(info, ta))
 		if okAsserts[ta] {
 			c.OK("C15.P3", key, c.P.Pos(ta), fn.Key(), "comma-ok / type switch")
 			return true
@@ -718,4 +720,22 @@ func c15P11(c *Ctx, fn *FuncInfo, counts map[string]int) {
 		c.Require("C15.P11", fn.Key()+": "+f.Name()+"("+v.Name()+") with "+v.Name()+" from To4()/To16()", fn, call, v.Name()+" != nil", nil)
 		return true
 	})
+}
+
+// exprStringFolded prints x with named string constants replaced by their values, so that a key
+// written as a literal and the same key behind a constant give the same text.
+func exprStringFolded(info *types.Info, x ast.Expr) string {
+	out := exprString(x)
+	ast.Inspect(x, func(n ast.Node) bool {
+		id, ok := n.(*ast.Ident)
+		if !ok {
+			return true
+		}
+		if cobj, isConst := info.ObjectOf(id).(*types.Const); isConst && cobj.Val().Kind() == constant.String {
+			re := regexp.MustCompile(`\b` + regexp.QuoteMeta(id.Name) + `\b`)
+			out = re.ReplaceAllLiteralString(out, strconv.Quote(constant.StringVal(cobj.Val())))
+		}
+		return true
+	})
+	return out
 }
